@@ -268,5 +268,30 @@ theorem recordArm_residual_sorted (map : List (String × PartialValue)) (h : CJs
   have := CJson.foldl_insertKV_sorted ((map.map (·.1)).zip rs) [] (by simpa [hk] using h)
   simpa using this
 
+/-- the `names` the arm zips with are the keys of the record expression's `BTreeMap`, whatever the fields evaluate to -/
+theorem collectPVKVs_keys (f : Expr → PRes) : ∀ (kvs : List (String × Expr)) (pkvs : List (String × PartialValue)),
+    collectPVKVs f kvs = .ok pkvs → pkvs.map (·.1) = kvs.map (·.1)
+  | [], pkvs, h => by simp [collectPVKVs] at h; subst h; rfl
+  | (k, x) :: xs, pkvs, h => by
+    simp only [collectPVKVs] at h
+    split at h
+    · cases hc : collectPVKVs f xs with
+      | error e => rw [hc] at h; simp [Except.map] at h
+      | ok r =>
+        rw [hc] at h
+        simp only [Except.map] at h
+        injection h with h
+        subst h
+        simp [collectPVKVs_keys f xs r hc]
+    · cases hc : collectPVKVs f xs with
+      | error e => rw [hc] at h; simp [Except.map] at h
+      | ok r =>
+        rw [hc] at h
+        simp only [Except.map] at h
+        injection h with h
+        subst h
+        simp [collectPVKVs_keys f xs r hc]
+    · cases h
+
 end NoPanic
 end Cedar
